@@ -103,13 +103,18 @@ def resolve (t : List (Str × Str)) : List Str → Option (List (Str × Str))
     | some v, some r => some ((k, v) :: r)
     | _, _ => none
 
-/-- keys without an entry are skipped (`_mac2db` / IPv6 `_ip2db` returning None for an issued value) -/
-def resolveSkip (t : List (Str × Str)) : List Str → List (Str × Str)
-  | [] => []
+/-- `_mac2db` / IPv6 `_ip2db` against the final table: an address with an entry is replaced; one that is itself
+an issued substitute is left alone (the "avoid nested obfuscating" guard returns None); any other address
+would have been given an entry when it was found — `none` -/
+def resolveGuard (t : List (Str × Str)) : List Str → Option (List (Str × Str))
+  | [] => some []
   | k :: ks =>
     match lookup t k with
-    | some v => (k, v) :: resolveSkip t ks
-    | none => resolveSkip t ks
+    | some v =>
+      match resolveGuard t ks with
+      | some r => some ((k, v) :: r)
+      | none => none
+    | none => if t.any (fun kv => kv.2 == k) then resolveGuard t ks else none
 
 /-! ### exclusion patterns (pattern.py) -/
 
@@ -385,13 +390,17 @@ def macIgnored (m : Str) : Bool :=
 
 def macKeys (s : Str) : List Str := (findMac s).filter (fun m => !macIgnored m)
 
-def macStage (tbl : List (Str × Str)) (l : PStr) : PStr :=
-  applyAll (resolveSkip tbl (macKeys (chars l))) l
+def macStage (tbl : List (Str × Str)) (l : PStr) : Except Err PStr :=
+  match resolveGuard tbl (macKeys (chars l)) with
+  | some steps => pure (applyAll steps l)
+  | none => throw .table
 
 /-! ### IPv6 (ip.py:205-222): the recogniser is a parameter (`found`) -/
 
-def ipv6Stage (tbl : List (Str × Str)) (found : List Str) (l : PStr) : PStr :=
-  applyAll (resolveSkip tbl found) l
+def ipv6Stage (tbl : List (Str × Str)) (found : List Str) (l : PStr) : Except Err PStr :=
+  match resolveGuard tbl found with
+  | some steps => pure (applyAll steps l)
+  | none => throw .table
 
 /-! ### keywords (keyword.py:26-49) -/
 
@@ -595,9 +604,9 @@ def runStage (cfg : Cfg) (tb : Tables) (width : Bool) (v6 : List Str) (st : Stag
   match st with
   | .hostname => hostStage cfg.fqdn tb.host l
   | .ip => ipStage tb.ip width l
-  | .ipv6 => pure (ipv6Stage tb.ipv6 v6 l)
+  | .ipv6 => ipv6Stage tb.ipv6 v6 l
   | .keyword => pure (keywordStage cfg.keywords l)
-  | .mac => pure (macStage tb.mac l)
+  | .mac => macStage tb.mac l
   | .password => pure (passwordStage l)
 
 def runStages (cfg : Cfg) (tb : Tables) (width : Bool) (v6 : List Str) : List Stage → PStr → Except Err PStr
